@@ -150,6 +150,14 @@ def ref_probe(probe, data, base):
         if len(data) < 1:
             raise Reject()
         return {"a": data[0], "ahead": int.from_bytes(data[1:3], "big") if len(data) >= 3 else None, "last": data[-1]}
+    if probe == "pointer-before":
+        # an absolute Pointer whose target lies one byte BEFORE the region's start: outside the region, refused (for a region that
+        # starts at offset 0 the offset is -1, i.e. end-relative: the region's last byte)
+        if len(data) < 1:
+            raise Reject()
+        if base > 0:
+            raise Reject()
+        return {"t0": base, "a": data[0], "p": data[-1]}
     if probe in ("offsets", "offsets-root"):
         if len(data) < 1:
             raise Reject()
@@ -191,6 +199,8 @@ def mk_probe(probe):
         return C.Bytes(2)
     if probe == "lookahead":
         return C.Struct("a" / C.Byte, "ahead" / C.Peek(C.Int16ub), "last" / C.Pointer(-1, C.Byte))
+    if probe == "pointer-before":
+        return C.Struct("t0" / C.Tell, "a" / C.Byte, "p" / C.Pointer(C.this.t0 - 1, C.Byte))
     if probe == "offsets-root":
         # ... plus a Pointer told to work on the outermost stream: that stream must be left exactly where it stood
         return C.Struct("t0" / C.Tell, "r" / C.RawCopy(C.Byte), "p" / C.Pointer(C.this.t0, C.Byte), "q" / C.Pointer(C.this._params.start, C.Byte, stream=C.this._root._io),
@@ -414,7 +424,7 @@ TOEND = ("NullStripped", "OffsettedEnd", "ProcessXor")
 def gen_case(rng, maxdepth):
     depth = rng.randint(1, maxdepth)
     chain = [gen_delim(rng, True) for _ in range(depth)]
-    probe = rng.choice(["greedybytes", "greedyrange", "byte", "bytes2", "offsets", "offsets", "offsets-root", "greedybytes", "lookahead"])
+    probe = rng.choice(["greedybytes", "greedyrange", "byte", "bytes2", "offsets", "offsets", "offsets-root", "greedybytes", "lookahead", "pointer-before"])
     cls = rng.choice(["empty", "one", "short", "short", "long"])
     variant_level = rng.randrange(depth) if rng.random() < 0.25 else None
     variant = rng.choice(["overlong", "zero", "overlong"])
@@ -436,8 +446,53 @@ def gen_case(rng, maxdepth):
     return {"chain": final, "probe": probe, "data": tag(buf), "offset": off, "cls": cls + ("/" + variant if variant_level is not None else "")}
 
 
+def xor_key_history(ctx, rng):
+    """one ProcessXor object whose key comes from the context / from the record being parsed, used with DIFFERENT keys one after the
+    other (records that each carry their own key): every region is decoded with its own key"""
+    import construct as C
+    x = lambda data, k: bytes(b ^ k[i % len(k)] for i, b in enumerate(data)) if k else bytes(data)
+    one = C.ProcessXor(C.this._params.k, C.GreedyBytes)
+    keys = [1, 0x5a, 2, 0xff, 1, 0, 0x80, b"\x03", b"\x01\x02", 7, b"\x09\x08\x07", 0x5a]
+    for rnd in range(ctx.pick(3, 20)):
+        for k in keys:
+            data = bytes(rng.randrange(256) for _ in range(rng.randint(0, 9)))
+            kb = bytes([k]) if isinstance(k, int) else k
+            case = {"xor-history": True, "key": tag(kb), "data": tag(data)}
+            ctx.ev()
+            try:
+                got_p, got_b = one.parse(data, k=k), one.build(data, k=k)
+            except Exception as e:
+                ctx.violation("xor-key-history:raises:" + type(e).__name__, repr(e)[:200], case)
+                return
+            if got_p != x(data, kb) or got_b != x(data, kb):
+                ctx.violation("xor-key-history:region-decoded-with-another-key", "key %r after other keys on the same object: parse -> %s, build -> %s, expected %s" % (k, got_p.hex(), got_b.hex(), x(data, kb).hex()), case)
+                return
+    recs = C.GreedyRange(C.Struct("k" / C.Byte, "d" / C.Prefixed(C.Byte, C.ProcessXor(C.this.k, C.GreedyBytes)), "t" / C.Tell))
+    for rnd in range(ctx.pick(10, 60)):
+        items = [(rng.choice([1, 2, 0x5a, 0xff, 0x10, 0]), bytes(rng.randrange(256) for _ in range(rng.randint(0, 5)))) for _ in range(rng.randint(2, 5))]
+        blob = b"".join(bytes([k, len(p)]) + x(p, bytes([k])) for k, p in items)
+        case = {"xor-history": True, "records": tag(blob)}
+        ctx.ev()
+        try:
+            got = recs.parse(blob)
+        except Exception as e:
+            ctx.violation("xor-key-history:raises:" + type(e).__name__, repr(e)[:200], case)
+            return
+        want = [(k, p) for k, p in items]
+        if [(g.k, g.d) for g in got] != want:
+            ctx.violation("xor-key-history:region-decoded-with-another-key", "records each carrying their own key: parsed %r, expected %r" % ([(g.k, g.d) for g in got], want), case)
+            return
+        if recs.build([dict(k=k, d=p) for k, p in items]) != blob:
+            ctx.violation("xor-key-history:region-encoded-with-another-key", "records each carrying their own key: build differs", case)
+            return
+    ctx.count("xor_key_histories")
+    ctx.nontrivial("xor-history", len(keys))
+
+
 def run(ctx):
     rng = ctx.rng
+    if ctx.index == 3 % ctx.nworkers:
+        xor_key_history(ctx, rng)
     n = ctx.pick(60000, 1200000) // ctx.nworkers
     maxdepth = ctx.pick(3, 4)
     # systematic single-delimiter sweep: all NullTerminated flag combinations x terms, all probes, offsets 0..7
@@ -464,7 +519,7 @@ def run(ctx):
             singles.append(["ProcessXor", key, form])
     i = 0
     for D in singles:
-        for probe in ("greedybytes", "greedyrange", "byte", "bytes2", "offsets", "offsets-root", "lookahead"):
+        for probe in ("greedybytes", "greedyrange", "byte", "bytes2", "offsets", "offsets-root", "lookahead", "pointer-before"):
             for cls in ("empty", "one", "short", "long"):
                 for variant in ("exact", "overlong", "zero"):
                     i += 1
@@ -532,6 +587,8 @@ def build_confinement(ctx):
 
 
 def replay(ctx, case):
+    if "xor-history" in case:
+        return xor_key_history(ctx, ctx.rng)
     if "build" in case:
         return build_confinement(ctx)
     run_case(ctx, case)
